@@ -362,7 +362,7 @@ func TestC06(t *testing.T) {
 	}
 	depth := vk.Pick(run, 3, 4)
 	run.Set("depth", depth)
-	dl := vk.NewDeadline(vk.Pick(run, 10*time.Minute, 120*time.Minute))
+	dl := vk.NewDeadline(vk.Pick(run, 10*time.Minute, 45*time.Minute))
 	states, crashPoints := 0, 0
 	for _, cfg := range c06Configs(run) {
 		cfg := cfg
